@@ -754,6 +754,56 @@ def main(run):
                 run.violation("get_smallest_vectors(store_dense_svecs=True)", "not-minimum-images-relabelled",
                               "pair (%d,0) of the relabelled (%s) description: stored vectors are not the exhaustive minimum images" % (k, tag), dict(case, pair=[k, 0]))
 
+    # the same through Primitive.get_smallest_vectors(): relabelled supercell (same atom order) and primitive matrix M^-T P M^T
+    from phonopy.structure.atoms import PhonopyAtoms
+    from phonopy.structure.cells import get_primitive_matrix_by_centring as _pmc
+
+    for tag in tags[:2] if not thorough else tags[:8]:
+        name = rng.choice(["nacl", "bcc", "fcc", "hcp", "ortho_C", "cscl"])
+        cell, cen = gen.make_cell(name)
+        smat = rng.choice([np.diag([2, 1, 1]), np.array([[1, 1, 0], [0, 1, 0], [0, 0, 2]]), np.eye(3, dtype=int)])
+        sc = quiet(get_supercell, cell, smat)
+        pmat = np.linalg.inv(smat) @ _pmc(gen.PROTOTYPES[name][3])
+        M = np.array(gen.UNIMODULAR[tag], dtype=int)
+        Minv = np.rint(np.linalg.inv(M)).astype(int)
+        sc2 = PhonopyAtoms(cell=M @ sc.cell, symbols=sc.symbols, scaled_positions=sc.scaled_positions @ Minv, masses=sc.masses)
+        pmat2 = Minv.T @ pmat @ M.T
+        red = np.array(C.get_reduced_bases(sc.cell, tolerance=SYMPREC))
+        for dense in (True, False):
+            try:
+                pa = quiet(get_primitive, sc, pmat, store_dense_svecs=dense)
+                pb = quiet(get_primitive, sc2, pmat2, store_dense_svecs=dense)
+            except Exception as e:
+                run.violation("get_primitive", "description-dependent", "relabelled (%s) supercell/primitive pair is rejected or the original one is: %s: %s"
+                              % (tag, type(e).__name__, str(e)[:100]), dict(cell=name, supercell_matrix=smat.tolist(), relabelling=tag))
+                break
+            run.case(("relabel-prim", name, smat.tolist(), tag, dense), nontrivial=True)
+            run.count("relabelled Primitive.get_smallest_vectors %s" % tag)
+            if list(pa.p2s_map) != list(pb.p2s_map):
+                run.count("relabelled Primitive: different representatives chosen (vector comparison not applicable)")
+                continue
+            (sva, mua), (svb, mub) = pa.get_smallest_vectors(), pb.get_smallest_vectors()
+            if not dense:
+                sva, mua = sparse_to_dense_svecs(sva, mua)
+                svb, mub = sparse_to_dense_svecs(svb, mub)
+            p2s = np.array(pa.p2s_map)
+            ex = exhaustive_minimum_images(sc.cell, (sc.scaled_positions[:, None, :] - sc.scaled_positions[p2s][None, :, :]).reshape(-1, 3), red=red)
+            for i in range(len(sc)):
+                for j in range(len(p2s)):
+                    if ex[i * len(p2s) + j][1]:
+                        continue
+                    run.count("oracle-description-invariance", section="oracle")
+                    a = sva[int(mua[i, j, 1]):int(mua[i, j, 1]) + int(mua[i, j, 0])] @ pa.cell
+                    b = svb[int(mub[i, j, 1]):int(mub[i, j, 1]) + int(mub[i, j, 0])] @ pb.cell
+                    if not same_set(a, b, 30.0):
+                        run.violation("Primitive.get_smallest_vectors", "description-dependent",
+                                      "pair (%d,%d): %d Cartesian shortest vectors in the original description, %d in the relabelled (%s) one, or different sets"
+                                      % (i, j, len(a), len(b), tag), dict(cell=name, supercell_matrix=smat.tolist(), relabelling=tag, dense=dense, pair=[i, j]))
+                        break
+                else:
+                    continue
+                break
+
     # ------------------------------------------------------------ Primitive.get_smallest_vectors
     names = ["sc", "cscl", "nacl_prim", "bcc", "fcc", "hcp", "zincblende_prim", "bct", "ortho_C", "mono_P", "triclinic", "rhombo", "nacl", "diamond", "wurtzite"]
     nprim = 200 if thorough else 40
